@@ -115,7 +115,82 @@ def dense_reference(groups, table_slot, dof_n, Ndof, isMatrix):
     return D
 
 
+def run_big(case):
+    """large-index cases: Ndof > 46340 so that row*Ndof+col > 2^31 (and Ndof^2 may exceed 2^32).
+    Returns coordinate triples (rows, cols, data) + the cached inv per slot instead of 50k-long indptr
+    lists, and evaluates the scatter-add predicate with an independent dict-of-python-ints loop."""
+    simu, meshes, groups, gid_of, pts, LagrangeCondition = build(case)
+    res = {"id": case["id"], "assemblies": [], "prop_fail": None, "error": None, "cache": []}
+    nass = 0
+    for iop, op in enumerate(case["ops"]):
+        if op["op"] == "addlag":
+            pt = pts[op["pt"]]
+            simu._Bc_Add_Lagrange(LagrangeCondition(pt, np.array([0]), np.array([0]), [simu.Get_unknowns(pt)[0]], np.array([0.0]), np.array([1.0])))
+            continue
+        pt = pts[op["pt"]]
+        dof_n = simu.Get_dof_n(pt)
+        tab, slots = {}, [[], [], [], []]
+        for gid, four in op["table"]:
+            g = groups[gid]
+            Ne, nPe = len(case["conn"][str(gid)]), case["nPe"][str(gid)]
+            n = nPe * dof_n
+            arrs = []
+            for si, x in enumerate(four):
+                a = to_arr(x, (Ne, n, n) if si < 3 else (Ne, n, 1), False)
+                arrs.append(a)
+                slots[si].append((gid, a))
+            tab[g] = tuple(arrs)
+        simu.table = tab
+        K, C, M, F = simu.Assembly(pt)
+        Ndof = int(K.shape[0])
+        out = []
+        cache = getattr(simu, "__cachedComputedValues", {})
+        for si, X in enumerate((K, C, M, F)):
+            isM = si < 3
+            Xc = X.tocoo()
+            order = np.lexsort((Xc.col, Xc.row))
+            rows = [int(v) for v in np.repeat(np.arange(X.shape[0]), np.diff(X.indptr))]
+            inv = []
+            present = tuple(groups[gid] for gid, a in slots[si] if a is not None)
+            for key, val in cache.items():
+                try:
+                    if key[0] == "__Get_csr_map" and key[1][0] == dof_n and bool(key[1][1]) == isM and key[1][2] == Ndof \
+                            and len(key[1][3]) == len(present) and all(a is b for a, b in zip(key[1][3], present)):
+                        inv = [int(v) for v in val[0]]
+                except Exception:
+                    pass
+            out.append([rows, [int(v) for v in X.indices], flat_vals(X.data, False), inv])
+            # independent predicate with exact python integers
+            exp = {}
+            for gid, arr in slots[si]:
+                if arr is None:
+                    continue
+                conn = case["conn"][str(gid)]
+                for e, nodes in enumerate(conn):
+                    dofs = [int(nd) * dof_n + d for nd in nodes for d in range(dof_n)]
+                    for i, gi in enumerate(dofs):
+                        if isM:
+                            for j, gj in enumerate(dofs):
+                                exp[(gi, gj)] = exp.get((gi, gj), 0) + int(arr[e, i, j])
+                        else:
+                            exp[(gi, 0)] = exp.get((gi, 0), 0) + int(arr[e, i, 0])
+            got = {}
+            for r, c, v in zip(Xc.row[order], Xc.col[order], Xc.data[order]):
+                got[(int(r), int(c))] = got.get((int(r), int(c)), 0) + float(v)
+            shape_ok = X.shape == ((Ndof, Ndof) if isM else (Ndof, 1))
+            diff = [(k, got.get(k, 0), exp.get(k, 0)) for k in sorted(set(got) | set(exp)) if got.get(k, 0) != exp.get(k, 0)]
+            if res["prop_fail"] is None and (diff or not shape_ok):
+                res["prop_fail"] = {"op_index": iop, "assembly_index": nass, "slot": "KCMF"[si], "Ndof": Ndof,
+                                    "impl": "first differing entries ((row, col), observed, expected): %s" % diff[:4] if shape_ok else str(X.shape),
+                                    "dense": "%d entries expected, %d stored" % (len(exp), len(got))}
+        res["assemblies"].append({"Ndof": Ndof, "out": out})
+        nass += 1
+    return res
+
+
 def run_case(case):
+    if case.get("big"):
+        return run_big(case)
     simu, meshes, groups, gid_of, pts, LagrangeCondition = build(case)
     cplx = case["complex"]
     res = {"id": case["id"], "assemblies": [], "prop_fail": None, "error": None}
